@@ -56,6 +56,13 @@ func zzC07_LinkStep() {
 	_, fromLive := g.Tasks[from]
 	_, toLive := g.Tasks[to]
 	zzAssert(fromLive && toLive, "C07/link: accepted only between live items")
+	if opts.JSON {
+		edges := zzOutEdges()
+		zzAssert(len(edges) == 1, "C16/link: a successful two-id sequence reports one edge")
+		for _, e := range edges {
+			zzAssert(zzEdge(g2, e.FromID, e.ToID) == !unlink, "C16/link: the reported edge is what a following read shows (present after link, absent after rm)")
+		}
+	}
 }
 
 // `sequence A B C`: a chain of two edges in one command.
